@@ -68,11 +68,11 @@ theorem multiline_tokens (l0 : Str) (ls : List Str)
     intro l hl
     simp only [X, List.cons_append, List.mem_cons, List.mem_append, List.mem_nil_iff, or_false] at hl
     rcases hl with rfl | rfl | hl | rfl
-    · simp
-    · intro hm
-      rcases List.mem_cons.mp hm with e | e
-      · simp at e
-      · exact h0nl e
+    · intro c hc; simp at hc
+    · intro c hc
+      rcases List.mem_cons.mp hc with e | e
+      · rw [e]; decide
+      · exact h0nl c e
     · exact (hls l hl).nonl
     · decide
   have hfilter : (X.filter (fun l => !isEmptyLine l)) = (';' :: l0) :: ls ++ [[';']] := by
